@@ -33,12 +33,40 @@ LOCALS = ["builder", "build", "new", "value", "type", "variant", "map", "s", "d"
 
 
 class Program:
-    def __init__(self, pid, label, ir, cfg=None, cls=None):
+    def __init__(self, pid, label, ir, cfg=None, cls=None, expose=False):
         self.pid = pid
         self.label = label
         self.ir = ir
         self.cfg = cfg or {}
         self.cls = cls or label
+        # also check that every declared type / error / client / server trait is reachable under
+        # its package's module (packages made of plain lower-case components only)
+        self.expose = expose
+
+    def exposed_paths(self):
+        strip = (self.cfg.get("strip") or "")
+        strip = strip.split(".") if strip else []
+        def mod(pkg):
+            comps = pkg.split(".")
+            if strip and comps[:len(strip)] == strip:
+                comps = comps[len(strip):]
+            return "::".join(["crate", self.pid] + comps)
+        out = []
+        for t in self.ir.get("types", []):
+            tn = t[t["type"]]["typeName"]
+            # (names the generator re-cases - consecutive capitals - are left out: their Rust
+            # spelling is the generator's choice)
+            if re.search(r"[A-Z]{2}", tn["name"]):
+                continue
+            out.append("%s::%s" % (mod(tn["package"]), tn["name"]))
+        for e in self.ir.get("errors", []):
+            tn = e["errorName"]
+            out.append("%s::%s" % (mod(tn["package"]), tn["name"]))
+        for sv in self.ir.get("services", []):
+            tn = sv["serviceName"]
+            for n in (tn["name"], "Async" + tn["name"], tn["name"] + "Client", tn["name"] + "AsyncClient"):
+                out.append("%s::%s" % (mod(tn["package"]), n))
+        return out
 
 
 def to_upper_snake(n):
@@ -200,7 +228,13 @@ def package_programs():
     svcs = [space.service("Svc%d" % i, [space.endpoint("e", "POST", "/e", [space.arg("body", space.ref("T%d" % ((i + 2) % len(pkgs)), pkgs[(i + 2) % len(pkgs)]), "body")], returns=space.ref("A%d" % i, p))], p) for i, p in enumerate(pkgs)]
     ir = space.ir(types, svcs, errs)
     for strip in [None, "com", "com.verif", "com.verif.a", "org.nomatch", "com.ver"]:
-        progs.append(Program("pkg_strip_%s" % (strip or "none").replace(".", "_"), "nested packages referencing each other, stripPrefix=%s" % strip, ir, cfg={"strip": strip}, cls="packages:strip=%s" % strip))
+        progs.append(Program("pkg_strip_%s" % (strip or "none").replace(".", "_"), "nested packages referencing each other, stripPrefix=%s" % strip, ir, cfg={"strip": strip}, cls="packages:strip=%s" % strip, expose=True))
+    # packages that hold only a service, only an error, only a type (a prefix must be stripped from all alike)
+    ir2 = space.ir([space.obj("Model", [space.field("s", S)], "com.verif.model"), space.enum("Kind", ["A"], "com.verif")],
+                   [space.service("Api", [space.endpoint("get", "GET", "/g", [], returns=space.ref("Model", "com.verif.model"))], "com.verif.api"), space.service("Deep", [space.endpoint("e", "POST", "/e", [])], "com.verif.api.v2.internal")],
+                   [space.error("Oops", "Ns", "CONFLICT", [], [], "com.verif.errs")])
+    for strip in [None, "com", "com.verif", "com.verif.api", "com.verif.model"]:
+        progs.append(Program("pkgonly_%s" % (strip or "none").replace(".", "_"), "packages holding only a service / only an error / only a type, stripPrefix=%s" % strip, ir2, cfg={"strip": strip}, cls="packages-single-kind:strip=%s" % strip, expose=True))
     return progs
 
 
@@ -373,6 +407,9 @@ def run(a, rep):
     groups = [generated[i::ncrates] for i in range(ncrates)]
     for gi, group in enumerate(groups):
         mods = "\n".join('#[path = "%s/mod.rs"]\npub mod %s;' % (os.path.join(root, "gen", p.pid), p.pid) for p in group)
+        for p in group:
+            if p.expose:
+                mods += "\nmod expose_%s {\n%s\n}" % (p.pid, "\n".join("    #[allow(unused_imports)] use %s;" % x for x in p.exposed_paths()))
         crate = os.path.join(root, "ws", "chk%d" % gi)
         H.write_crate(crate, "c03chk%d" % gi, lib_rs="#![allow(warnings)]\n" + mods + "\n")
         toml = open(os.path.join(crate, "Cargo.toml")).read().replace("[workspace]\n\n", "")
@@ -397,7 +434,7 @@ def run(a, rep):
         m = re.search(r"/gen/([^/]+)/", file)
         pid = m.group(1) if m else None
         if pid is None:
-            m2 = re.search(r"pub mod (\w+)", msg)
+            m2 = re.search(r"pub mod (\w+)", msg) or re.search(r"crate::(\w+)::", msg) or re.search(r"in `(\w+)(::|`)", msg)
             pid = m2.group(1) if m2 else "?"
         bad.setdefault(pid, []).append((file, code, msg))
     for pid, errs in sorted(bad.items()):
